@@ -413,6 +413,15 @@ def check_chain(ctx, arg, res):
                                                                                   if res["steps"].index(s) else None) \
                 and res["steps"].index(s) > 0:
             ctx.count("error-changed-layout:%s" % s["out"])
+        if s["out"] == "ok":
+            # the layout asked for is the layout obtained (state = tree, dirty, branch kind, repository kind, ...)
+            st = s["state"]
+            want = {"branch": st[0] == "F" and st[2] == "u", "tree": st[0] == "T" and st[2] == "u",
+                    "checkout": st[0] == "T" and st[2] == "b", "lightweight-checkout": st[0] == "T" and st[2] == "r",
+                    "standalone": st[3] == "o", "use-shared": st[3] != "o"}[s["target"]]
+            if not want:
+                ctx.violation(case, "to_%s succeeded but the location is %s (tree, dirty, branch u|b|r, repository n|o|s, "
+                                    "bind location known)" % (s["target"], st))
         impl.append("%s:%s:%s" % (s["out"], s["state"], tree_state(obs0, o)))
         prev = o
     line = "chain %s %s %s" % ("T" if force else "F", ",".join(TCODE[t] for t in targets), res["state0"])
@@ -443,6 +452,12 @@ def scenarios(ctx):
         pairs = [p for i, p in enumerate(pairs) if (i + ctx.seed) % 3 == 0]
     jobs = []
     idx = 0
+    if not ctx.thorough():
+        # the transitions that destroy or re-create something run on every seed
+        core = [(("tree", False, True), "branch"), (("checkout", True, True), "branch"),
+                (("lightweight-checkout", False, True), "branch"), (("lightweight-checkout", True, True), "tree"),
+                (("tree", True, True), "standalone"), (("checkout", False, True), "lightweight-checkout")]
+        pairs = core + [p for p in pairs if p not in core]
     fmts = ["2a", "2a", "1.9", "pack-0.92"]     # (knit-era branches lack old-bound locations: upgrade stream only)
     for (source, shared, dirty), t in pairs:
         idx += 1
